@@ -347,17 +347,22 @@ SPECS["C03"] = ("""property C03: all parsers are total and memory-safe on arbitr
 SPECS["C01"] = ("""property C01: event JSON parsing is faithful to an independent JSON parser.
    PARTIAL.  Proved: the integer members are read as exactly the numeric value of their digit run
    and a value that does not fit the field (kind > 65535, created_at >= 2^64) is an error, never
-   wrapped; whatever integer is accepted fits.  The theorem "parse (render t) = enc_event (denote t)
-   for every text t of the grammar" is not yet proved in Coq; it is decided per run by the
+   wrapped; whatever integer is accepted fits; and for the library's own rendering of ANY well-formed
+   event the parser consumes the whole text and produces exactly the encoding of the seven fields
+   (JsonRoundTrip.v).  For the other texts of the grammar (member orders, whitespace, escape spellings,
+   unknown members) "parse t = enc_event (denote t)" is not proved in Coq; it is decided per run by the
    differential check against python's json module (member orders, whitespace, escape spellings,
    unknown members, boundaries) and against the parser model (exact).""",
-  CODIMP, [
+  CODIMP + "\nFrom Pocket Require Import JsonRoundTrip.", [
   ("C01_created_at_value_partial",
    "forall l, read_u64 l = let '(ds, rest) := span_digits l in\n    match ds with [] => Err EJson | _ => if num_of ds <=? 18446744073709551615 then Ok (num_of ds, rest) else Err EJson end",
    "read_u64_spec", "digit run of any length: its value, or an error when >= 2^64"),
   ("C01_kind_value_partial",
    "forall l, read_kind l = let '(ds, rest) := span_digits l in\n    match ds with [] => Err EJson | _ => if num_of ds <=? 65535 then Ok (num_of ds, rest) else Err EJson end",
    "read_kind_spec", ""),
+  ("C01_library_text_parsed_faithfully",
+   "forall e txt out, wf_event_json e -> event_size e <= len out -> event_as_json e = Ok txt ->\n    event_from_json txt out = Ok (len txt, enc_event e, enc_event e ++ drop (event_size e) out)",
+   "event_json_roundtrip", "the parser model on the library's own rendering of ANY well-formed event: consumed = the whole text, the binary value = the encoding of exactly the seven field values (whose accessors return them: C19). Other member orders, whitespace, escape spellings and unknown members are decided per run"),
   ("C01_int_no_wrap_u64", "forall l v r, read_u64 l = Ok (v, r) -> v < 18446744073709551616", "read_u64_fits", ""),
   ("C01_int_no_wrap_kind", "forall l v r, read_kind l = Ok (v, r) -> v < 65536", "read_kind_fits", ""),
   ], """Example C01_example :
@@ -382,16 +387,25 @@ SPECS["C07"] = ("""property C07: filter JSON parsing is faithful, order-independ
 SPECS["C02"] = ("""property C02: event binary <-> JSON round trip is lossless and the binary form is canonical.
    PARTIAL.  Proved: the hex half of the round trip (read_hex (write_hex b) = b for ids, pubkeys,
    signatures); the STRING half for every valid UTF-8 string (json_unescape reads json_escape's output
-   back to the same bytes, and a \\uXXXX spelling reads like the character itself); the binary encoding is a
+   back to the same bytes, and a \\uXXXX spelling reads like the character itself); THE WHOLE EVENT: parsing
+   the text Event::as_json writes gives back byte-for-byte the canonical encoding (JsonRoundTrip.v: hex fields,
+   numbers, the tag array with its counting and reading passes, the content, all seven members, the
+   caller's buffer with any prior contents); the binary encoding is a
    function of the seven field values alone (Ctor/Access theorems of C19: from_parts writes exactly
    enc_event e and every accessor returns the field).  Losslessness through json_escape/json_unescape
    and canonicity across texts are decided per run by the differential check (5 texts per event,
    3 buffer fills, from_parts, python json on as_json's output, byte equality).""",
-  CODIMP + "\nFrom Pocket Require Import Ctor CtorProofs Access EscapeRoundTrip.", [
+  CODIMP + "\nFrom Pocket Require Import Ctor CtorProofs Access EscapeRoundTrip JsonRoundTrip.", [
   ("C02_hex_roundtrip_partial", "forall bs, wf_bytes bs -> read_hex (write_hex bs) (len bs) = Ok bs", "read_write_hex", ""),
   ("C02_binary_form_is_function_of_fields_partial",
    "forall e out, wf_aevent e -> fits_event e -> event_size e <= len out ->\n    exists b, event_from_parts e out = Ok b /\\ take (event_size e) b = enc_event e /\\ drop (event_size e) b = drop (event_size e) out /\\\n              len b = len out /\\ ev_delineate b = Ok (enc_event e) /\\ event_accessors_ok e (enc_event e)",
    "event_ctor_faithful", "independent of the buffer's prior contents"),
+  ("C02_event_json_roundtrip",
+   "forall e txt out, wf_event_json e -> event_size e <= len out -> event_as_json e = Ok txt ->\n    event_from_json txt out = Ok (len txt, enc_event e, enc_event e ++ drop (event_size e) out)",
+   "event_json_roundtrip", "EVERY well-formed event (valid UTF-8 strings, any tag shapes incl. empty tags and empty strings, fields within their widths), every caller buffer of sufficient size with ANY prior contents: parsing the text Event::as_json writes consumes it entirely and writes exactly the canonical binary encoding of the same seven field values, leaving the rest of the buffer untouched"),
+  ("C02_tags_json_roundtrip",
+   "forall ts tj tail F, JsonRoundTrip.valid_tags ts -> fits_tags ts -> tags_size ts <= len F ->\n    tags_as_json ts = Ok tj -> tags_from_json (tj ++ tail) F = Ok (len tj, enc_tags ts)",
+   "tags_json_roundtrip", "Tags::from_json after Tags::as_json, whatever follows the text"),
   ("C02_string_roundtrip",
    "forall s e rest cap, valid_utf8 s -> json_escape s = Ok e -> len s <= cap ->\n    json_unescape (e ++ 34 :: rest) cap = Ok (len e, s)",
    "escape_unescape_roundtrip", "every valid UTF-8 string (shortest-form encodings of Unicode scalar values), whatever follows the closing quote"),
@@ -405,6 +419,23 @@ Example C02_roundtrip_example :
   Forall scalar cps /\\
   json_unescape (flat_map esc1 cps ++ 34 :: [1; 2; 3]) 64 = Ok (len (flat_map esc1 cps), utf8_of cps).
 Proof. exact roundtrip_sample. Qed.
+(* non-vacuity of the event round trip: a nested-looking tag, an empty tag, a tag with an empty string, escapes in the content *)
+Example C02_event_example :
+  let e := mkE (repeat 1 32) (repeat 2 32) (repeat 3 64) 1 1700000000 [[[101]; [91; 34; 93]]; []; [[]]] [104; 10; 34; 92; 195; 169] in
+  wf_event_json e /\\ exists txt, event_as_json e = Ok txt /\\
+    event_from_json txt (repeat 170 (N.to_nat (event_size e) + 3)) = Ok (len txt, enc_event e, enc_event e ++ [170; 170; 170]).
+Proof.
+  cbv zeta. split.
+  - unfold wf_event_json. cbn [e_id e_pk e_sig e_kind e_created e_tags e_content].
+    assert (R : forall b n, b < 256 -> wf_bytes (repeat b n)) by (intros b n Hb; apply Forall_forall; intros x Hx; apply repeat_spec in Hx; subst x; exact Hb).
+    repeat apply conj; try (apply R; lia); try (vm_compute; reflexivity); try lia.
+    + repeat constructor.
+      * exists [101]. split; [repeat constructor; unfold scalar; lia|reflexivity].
+      * exists [91; 34; 93]. split; [repeat constructor; unfold scalar; lia|reflexivity].
+      * exists []. split; [constructor|reflexivity].
+    + exists [104; 10; 34; 92; 233]. split; [repeat constructor; unfold scalar; lia|vm_compute; reflexivity].
+  - eexists. split; [vm_compute; reflexivity|vm_compute; reflexivity].
+Qed.
 """)
 
 SPECS["C08"] = ("""property C08: event verification accepts exactly correctly hashed and signed events.
